@@ -141,8 +141,36 @@ async fn quiesce() {
     }
 }
 
+/// What happens around the downlink that the lifecycle must not be able to tell: the downlink's own
+/// handle is dropped (the client tasks then only read), the far end of the output channel goes away (the next
+/// write fails), a value downlink is set locally.
+#[derive(Clone, Debug, Default)]
+struct Env {
+    drop_handle_at: Option<usize>,
+    close_out_at: Option<usize>,
+    local_sets_at: Vec<usize>,
+}
+
+fn gen_env(rng: &mut Rng, len: usize) -> Env {
+    let mut e = Env::default();
+    match rng.below(6) {
+        0 => e.drop_handle_at = Some(0),
+        1 => e.drop_handle_at = Some(rng.usize_below(len + 1)),
+        _ => {}
+    }
+    if rng.below(6) == 0 {
+        e.close_out_at = Some(rng.usize_below(len + 1));
+    }
+    if rng.below(3) == 0 {
+        for _ in 0..rng.range(1, 4) {
+            e.local_sets_at.push(rng.usize_below(len + 1));
+        }
+    }
+    e
+}
+
 // ---- client map ----
-async fn run_client_map(ewns: bool, tou: bool, notes: &[Note]) -> Vec<Vec<String>> {
+async fn run_client_map(ewns: bool, tou: bool, notes: &[Note], env: &Env) -> Vec<Vec<String>> {
     let rec: Rec = Default::default();
     let lifecycle = BasicMapDownlinkLifecycle::<i32, i32>::default()
         .with(rec.clone())
@@ -157,16 +185,27 @@ async fn run_client_map(ewns: bool, tou: bool, notes: &[Note]) -> Vec<Vec<String
     let (set_tx, set_rx) = mpsc::channel::<MapOperation<i32, i32>>(64);
     let model = MapDownlinkModel::new(set_rx, lifecycle);
     let (in_tx, in_rx) = byte_channel(NonZeroUsize::new(BUF).unwrap());
-    let (out_tx, mut out_rx) = byte_channel(NonZeroUsize::new(BUF).unwrap());
+    let (out_tx, out_rx) = byte_channel(NonZeroUsize::new(BUF).unwrap());
     let config = DownlinkConfig { events_when_not_synced: ewns, terminate_on_unlinked: tou, buffer_size: NonZeroUsize::new(1024).unwrap() };
     let task = tokio::spawn(DownlinkTask::new(model).run(Address::text(None, "/node", "lane"), config, in_rx, out_tx));
     let mut writer = MapWriter::new(in_tx);
     let mut outs = vec![];
     let mut sink = [0u8; 4096];
-    for n in notes {
+    let mut set_tx = Some(set_tx);
+    let mut out_rx = Some(out_rx);
+    for (i, n) in notes.iter().enumerate() {
+        if env.drop_handle_at == Some(i) {
+            set_tx = None;
+            quiesce().await;
+        }
+        if env.close_out_at == Some(i) {
+            out_rx = None;
+        }
         match n {
             Note::Local(m) => {
-                let _ = set_tx.send(m.to_operation()).await;
+                if let Some(tx) = &set_tx {
+                    let _ = tx.send(m.to_operation()).await;
+                }
             }
             n => {
                 let _ = writer.send(n).await;
@@ -174,9 +213,11 @@ async fn run_client_map(ewns: bool, tou: bool, notes: &[Note]) -> Vec<Vec<String
         }
         quiesce().await;
         // keep the output channel drained
-        while let Some(Ok(k)) = tokio::io::AsyncReadExt::read(&mut out_rx, &mut sink).now_or_never() {
-            if k == 0 {
-                break;
+        if let Some(out_rx) = out_rx.as_mut() {
+            while let Some(Ok(k)) = tokio::io::AsyncReadExt::read(out_rx, &mut sink).now_or_never() {
+                if k == 0 {
+                    break;
+                }
             }
         }
         outs.push(std::mem::take(&mut *rec.lock()));
@@ -339,14 +380,16 @@ async fn pump(chan: &mut BoxDownlinkChannel<FakeAgent>, agent: &FakeAgent) -> bo
     true
 }
 
-async fn run_hosted_map(ewns: bool, tou: bool, notes: &[Note]) -> Vec<Vec<String>> {
+async fn run_hosted_map(ewns: bool, tou: bool, notes: &[Note], env: &Env) -> Vec<Vec<String>> {
     let agent = FakeAgent;
     let rec: Rec = Default::default();
     let lc = RecLc { rec: rec.clone(), value: false };
     let (in_tx, in_rx) = byte_channel(NonZeroUsize::new(BUF).unwrap());
-    let (out_tx, mut out_rx) = byte_channel(NonZeroUsize::new(BUF).unwrap());
+    let (out_tx, out_rx) = byte_channel(NonZeroUsize::new(BUF).unwrap());
     let (_stop_tx, stop_rx) = trigger::trigger();
     let (write_tx, write_rx) = mpsc::unbounded_channel::<MapOperation<i32, i32>>();
+    let mut write_tx = Some(write_tx);
+    let mut out_rx = Some(out_rx);
     let config = MapDownlinkConfig { events_when_not_synced: ewns, terminate_on_unlinked: tou };
     let fac = MapDownlinkFactory::<i32, i32, HashMap<i32, i32>, _>::new(Address::text(None, "/node", "lane"), lc, config, stop_rx, write_rx);
     let mut chan = fac.create(&agent, out_tx, in_rx);
@@ -354,20 +397,33 @@ async fn run_hosted_map(ewns: bool, tou: bool, notes: &[Note]) -> Vec<Vec<String
     let mut outs = vec![];
     let mut alive = true;
     let mut sink = [0u8; 4096];
-    for n in notes {
+    for (i, n) in notes.iter().enumerate() {
+        if env.drop_handle_at == Some(i) {
+            write_tx = None;
+            if alive {
+                alive = pump(&mut chan, &agent).await;
+            }
+        }
+        if env.close_out_at == Some(i) {
+            out_rx = None;
+        }
         if alive {
             match n {
                 Note::Local(m) => {
-                    let _ = write_tx.send(m.to_operation());
+                    if let Some(tx) = &write_tx {
+                        let _ = tx.send(m.to_operation());
+                    }
                 }
                 n => {
                     let _ = writer.send(n).await;
                 }
             }
             alive = pump(&mut chan, &agent).await;
-            while let Some(Ok(k)) = tokio::io::AsyncReadExt::read(&mut out_rx, &mut sink).now_or_never() {
-                if k == 0 {
-                    break;
+            if let Some(out_rx) = out_rx.as_mut() {
+                while let Some(Ok(k)) = tokio::io::AsyncReadExt::read(out_rx, &mut sink).now_or_never() {
+                    if k == 0 {
+                        break;
+                    }
                 }
             }
         }
@@ -403,7 +459,7 @@ impl VNote {
     }
 }
 
-async fn run_client_value(ewns: bool, tou: bool, notes: &[VNote]) -> Vec<Vec<String>> {
+async fn run_client_value(ewns: bool, tou: bool, notes: &[VNote], env: &Env) -> Vec<Vec<String>> {
     let rec: Rec = Default::default();
     let lifecycle = BasicValueDownlinkLifecycle::<i32>::default()
         .with(rec.clone())
@@ -412,31 +468,49 @@ async fn run_client_value(ewns: bool, tou: bool, notes: &[VNote]) -> Vec<Vec<Str
         .on_event_blocking(|r, v| r.lock().push(format!("VCEvent {}", v)))
         .on_set_blocking(|r, before, after| r.lock().push(format!("VCSet {} {}", opt_coq(before.copied()), after)))
         .on_unlinked_blocking(|r| r.lock().push("VCUnlinked".into()));
-    let (_set_tx, set_rx) = mpsc::channel::<ValueDownlinkSet<i32>>(16);
+    let (set_tx, set_rx) = mpsc::channel::<ValueDownlinkSet<i32>>(16);
     let model = ValueDownlinkModel::new(set_rx, lifecycle);
     let (in_tx, in_rx) = byte_channel(NonZeroUsize::new(BUF).unwrap());
-    let (out_tx, _out_rx) = byte_channel(NonZeroUsize::new(BUF).unwrap());
+    let (out_tx, out_rx) = byte_channel(NonZeroUsize::new(BUF).unwrap());
+    let mut set_tx = Some(set_tx);
+    let mut out_rx = Some(out_rx);
     let config = DownlinkConfig { events_when_not_synced: ewns, terminate_on_unlinked: tou, buffer_size: NonZeroUsize::new(1024).unwrap() };
     let task = tokio::spawn(DownlinkTask::new(model).run(Address::text(None, "/node", "lane"), config, in_rx, out_tx));
     let mut sender = FramedWrite::new(in_tx, DownlinkNotificationEncoder::default());
     let mut outs = vec![];
-    for n in notes {
+    for (i, n) in notes.iter().enumerate() {
+        if env.drop_handle_at == Some(i) {
+            set_tx = None;
+            quiesce().await;
+        }
+        if env.close_out_at == Some(i) {
+            out_rx = None;
+        }
+        if let Some(tx) = &set_tx {
+            for _ in env.local_sets_at.iter().filter(|k| **k == i) {
+                let _ = tx.try_send(ValueDownlinkSet { to: 1000 + i as i32 });
+            }
+            quiesce().await;
+        }
         let _ = sender.send(n.frame()).await;
         quiesce().await;
         outs.push(std::mem::take(&mut *rec.lock()));
     }
+    drop(out_rx);
     task.abort();
     outs
 }
 
-async fn run_hosted_value(ewns: bool, tou: bool, notes: &[VNote]) -> Vec<Vec<String>> {
+async fn run_hosted_value(ewns: bool, tou: bool, notes: &[VNote], env: &Env) -> Vec<Vec<String>> {
     let agent = FakeAgent;
     let rec: Rec = Default::default();
     let lc = RecLc { rec: rec.clone(), value: true };
     let (in_tx, in_rx) = byte_channel(NonZeroUsize::new(BUF).unwrap());
-    let (out_tx, _out_rx) = byte_channel(NonZeroUsize::new(BUF).unwrap());
+    let (out_tx, out_rx) = byte_channel(NonZeroUsize::new(BUF).unwrap());
     let (_stop_tx, stop_rx) = trigger::trigger();
-    let (_write_tx, write_rx) = circular_buffer::channel::<i32>(NonZeroUsize::new(8).unwrap());
+    let (write_tx, write_rx) = circular_buffer::channel::<i32>(NonZeroUsize::new(8).unwrap());
+    let mut write_tx = Some(write_tx);
+    let mut out_rx = Some(out_rx);
     let config = SimpleDownlinkConfig { events_when_not_synced: ewns, terminate_on_unlinked: tou };
     let state: RefCell<Option<i32>> = RefCell::new(None);
     let fac = ValueDownlinkFactory::new(Address::text(None, "/node", "lane"), lc, state, config, stop_rx, write_rx);
@@ -444,13 +518,31 @@ async fn run_hosted_value(ewns: bool, tou: bool, notes: &[VNote]) -> Vec<Vec<Str
     let mut sender = FramedWrite::new(in_tx, DownlinkNotificationEncoder::default());
     let mut outs = vec![];
     let mut alive = true;
-    for n in notes {
+    for (i, n) in notes.iter().enumerate() {
+        if env.drop_handle_at == Some(i) {
+            write_tx = None;
+            if alive {
+                alive = pump(&mut chan, &agent).await;
+            }
+        }
+        if env.close_out_at == Some(i) {
+            out_rx = None;
+        }
+        if alive {
+            if let Some(tx) = write_tx.as_mut() {
+                for _ in env.local_sets_at.iter().filter(|k| **k == i) {
+                    let _ = tx.try_send(1000 + i as i32);
+                }
+                alive = pump(&mut chan, &agent).await;
+            }
+        }
         if alive {
             let _ = sender.send(n.frame()).await;
             alive = pump(&mut chan, &agent).await;
         }
         outs.push(std::mem::take(&mut *rec.lock()));
     }
+    drop(out_rx);
     outs
 }
 
@@ -582,14 +674,14 @@ fn main() {
     let cfg_coq = |ewns: bool, tou: bool| format!("{{| events_when_not_synced := {}; terminate_on_unlinked := {} |}}", ewns, tou);
     let render = |outs: &Vec<Vec<String>>| coq_list(outs.iter().map(|cs| coq_list(cs.iter().cloned())));
 
-    let mut emit_map = |hosted: bool, ewns: bool, tou: bool, notes: &[Note], legal: bool, w: &mut CaseWriter| {
+    let mut emit_map = |hosted: bool, ewns: bool, tou: bool, notes: &[Note], legal: bool, env: &Env, w: &mut CaseWriter| {
         // keys are offset by +1 in the Coq term (keys range over -1..): done by generating keys >= 0 only
         let notes2 = notes.to_vec();
         let outs = catch(std::panic::AssertUnwindSafe(|| {
             if hosted {
-                rt.block_on(run_hosted_map(ewns, tou, &notes2))
+                rt.block_on(run_hosted_map(ewns, tou, &notes2, env))
             } else {
-                rt.block_on(run_client_map(ewns, tou, &notes2))
+                rt.block_on(run_client_map(ewns, tou, &notes2, env))
             }
         }))
         .unwrap_or_else(|m| vec![vec![format!("CLinked (* PANIC {} *)", m.replace("*)", "* )"))]]);
@@ -600,8 +692,14 @@ fn main() {
             coq_list(notes.iter().map(|n| n.coq())),
             render(&outs)
         );
-        let human = format!("map[{}] ewns={} tou={} notes={:?} callbacks={:?}", if hosted { "hosted" } else { "client" }, ewns, tou, notes, outs);
+        let human = format!("map[{}] ewns={} tou={} env={:?} notes={:?} callbacks={:?}", if hosted { "hosted" } else { "client" }, ewns, tou, env, notes, outs);
         *kinds.entry(format!("map_{}_{}", if hosted { "hosted" } else { "client" }, if legal { "legal" } else { "any" })).or_default() += 1;
+        if env.drop_handle_at.is_some() {
+            *kinds.entry("map_handle_dropped".into()).or_default() += 1;
+        }
+        if env.close_out_at.is_some() {
+            *kinds.entry("map_output_closed".into()).or_default() += 1;
+        }
         let nt = legal && !ewns && human.contains("Take") && human.contains("CSynced");
         if distinct.insert(human.clone()) && nt {
             nontrivial += 1;
@@ -616,11 +714,11 @@ fn main() {
     let up = |k, v| Note::Event(Msg::Update(k, v));
     for hosted in [false, true] {
         // clear before sync with callbacks suppressed must still clear
-        emit_map(hosted, false, false, &[Note::Linked, up(1, 1), up(2, 2), Note::Event(Msg::Clear), up(3, 3), Note::Synced], true, &mut w);
+        emit_map(hosted, false, false, &[Note::Linked, up(1, 1), up(2, 2), Note::Event(Msg::Clear), up(3, 3), Note::Synced], true, &Env::default(), &mut w);
         // take / drop before sync with callbacks suppressed; then after sync
-        emit_map(hosted, false, false, &[Note::Linked, up(1, 1), up(2, 2), up(3, 3), Note::Event(Msg::Take(2)), Note::Synced, up(4, 4), up(5, 5), Note::Event(Msg::Drop(1)), Note::Event(Msg::Take(1))], true, &mut w);
+        emit_map(hosted, false, false, &[Note::Linked, up(1, 1), up(2, 2), up(3, 3), Note::Event(Msg::Take(2)), Note::Synced, up(4, 4), up(5, 5), Note::Event(Msg::Drop(1)), Note::Event(Msg::Take(1))], true, &Env::default(), &mut w);
         // local writes do not touch the state
-        emit_map(hosted, true, false, &[Note::Linked, up(1, 1), Note::Synced, Note::Local(Msg::Update(1, 7)), up(1, 7), Note::Local(Msg::Remove(1)), Note::Event(Msg::Remove(1))], true, &mut w);
+        emit_map(hosted, true, false, &[Note::Linked, up(1, 1), Note::Synced, Note::Local(Msg::Update(1, 7)), up(1, 7), Note::Local(Msg::Remove(1)), Note::Event(Msg::Remove(1))], true, &Env::default(), &mut w);
     }
 
     for i in 0..args.cases {
@@ -672,7 +770,8 @@ fn main() {
                 }
             })
             .collect();
-        emit_map(hosted, ewns, tou, &notes, legal, &mut w);
+        let env = gen_env(&mut rng, notes.len());
+        emit_map(hosted, ewns, tou, &notes, legal, &env, &mut w);
     }
 
     // value downlinks
@@ -695,11 +794,21 @@ fn main() {
                 .collect()
         };
         let notes2 = notes.clone();
+        let env = gen_env(&mut rng, notes.len());
+        if env.drop_handle_at.is_some() {
+            *kinds.entry("value_handle_dropped".into()).or_default() += 1;
+        }
+        if env.close_out_at.is_some() {
+            *kinds.entry("value_output_closed".into()).or_default() += 1;
+        }
+        if !env.local_sets_at.is_empty() {
+            *kinds.entry("value_local_sets".into()).or_default() += 1;
+        }
         let outs = catch(std::panic::AssertUnwindSafe(|| {
             if hosted {
-                rt.block_on(run_hosted_value(ewns, tou, &notes2))
+                rt.block_on(run_hosted_value(ewns, tou, &notes2, &env))
             } else {
-                rt.block_on(run_client_value(ewns, tou, &notes2))
+                rt.block_on(run_client_value(ewns, tou, &notes2, &env))
             }
         }))
         .unwrap_or_else(|m| vec![vec![format!("VCLinked (* PANIC {} *)", m.replace("*)", "* )"))]]);
@@ -710,7 +819,7 @@ fn main() {
             coq_list(notes.iter().map(|n| n.coq())),
             render(&outs)
         );
-        let human = format!("value[{}] ewns={} tou={} notes={:?} callbacks={:?}", if hosted { "hosted" } else { "client" }, ewns, tou, notes, outs);
+        let human = format!("value[{}] ewns={} tou={} env={:?} notes={:?} callbacks={:?}", if hosted { "hosted" } else { "client" }, ewns, tou, env, notes, outs);
         *kinds.entry(format!("value_{}_{}", if hosted { "hosted" } else { "client" }, if legal { "legal" } else { "any" })).or_default() += 1;
         if distinct.insert(human.clone()) && legal && !ewns && human.contains("VCSynced") {
             nontrivial += 1;
@@ -722,7 +831,7 @@ fn main() {
     let meta = J::obj(vec![
         ("evaluations", J::I(w.len() as i128)),
         ("distinct_nontrivial", J::I(nontrivial as i128)),
-        ("rule", J::s("notification sequences fed through the byte channels of the real client downlink tasks (swimos_downlink DownlinkTask::run, map and value) and of the real hosted downlinks (MapDownlinkFactory / ValueDownlinkFactory channels driven by await_ready / next_event, handlers stepped to completion), all four settings of events_when_not_synced x terminate_on_unlinked, 80% legal sequences (linked, events incl. take/drop/clear over 2-5 keys, optional synced, events, unlinked, relink) with local writes through the downlink's own handle interleaved, 20% arbitrary sequences; every lifecycle callback is recorded with all its arguments (maps through their sorted view) and compared per notification; non-trivial = legal map sequence with callbacks suppressed before sync that contains a Take and reaches synced (maps) / reaches synced with suppressed events (values); distinct by rendered case")),
+        ("rule", J::s("notification sequences fed through the byte channels of the real client downlink tasks (swimos_downlink DownlinkTask::run, map and value) and of the real hosted downlinks (MapDownlinkFactory / ValueDownlinkFactory channels driven by await_ready / next_event, handlers stepped to completion), all four settings of events_when_not_synced x terminate_on_unlinked, 80% legal sequences (linked, events incl. take/drop/clear over 2-5 keys, optional synced, events, unlinked, relink) with local writes through the downlink's own handle interleaved (maps: in the sequence; values: at up to 3 positions in a third of the cases), 20% arbitrary sequences; in a third of the cases the downlink's own handle is dropped before or during the sequence (the client tasks then run read-only), in a sixth the far end of the output channel goes away; every lifecycle callback is recorded with all its arguments (maps through their sorted view) and compared per notification; non-trivial = legal map sequence with callbacks suppressed before sync that contains a Take and reaches synced (maps) / reaches synced with suppressed events (values); distinct by rendered case")),
         ("structures", J::counts(&kinds)),
         ("samples", J::A(samples)),
     ]);
